@@ -17,6 +17,7 @@ package main
 import (
 	"encoding/json"
 	"fmt"
+	"net/http/httptest"
 	"os"
 	"os/exec"
 	"path/filepath"
@@ -28,6 +29,7 @@ import (
 	"github.com/php-any/origami/node"
 	"github.com/php-any/origami/parser"
 	"github.com/php-any/origami/runtime"
+	ohttp "github.com/php-any/origami/std/net/http"
 )
 
 type Case struct {
@@ -40,6 +42,10 @@ type Case struct {
 	File string   `json:"file,omitempty"`
 	A    string   `json:"a,omitempty"`
 	B    string   `json:"b,omitempty"`
+	// http: the request the handler function h($r, $w) of Src is served
+	Query   string     `json:"query,omitempty"`
+	Form    string     `json:"form,omitempty"`
+	Headers [][]string `json:"headers,omitempty"`
 }
 
 type Run struct {
@@ -47,6 +53,9 @@ type Run struct {
 	Outcome string `json:"outcome"`
 	N       int    `json:"n,omitempty"`
 	UserOut bool   `json:"userout,omitempty"`
+	// pair mode: what B wrote straight to the process's stdout (var_dump / var_export / print_r bypass
+	// data.WriteOutput)
+	Raw string `json:"raw,omitempty"`
 }
 
 type Obs struct {
@@ -250,6 +259,67 @@ func runProg(c Case) (o Obs) {
 	return o
 }
 
+// view: render an html template through VM.ParseFile (what $response->view does), reps times in fresh
+// VMs, and group the rendered strings.
+func viewOnce(path string) (r Run) {
+	var sb strings.Builder
+	old := data.WriteOutput
+	data.WriteOutput = func(s string) { sb.WriteString(s) }
+	defer func() { data.WriteOutput = old }()
+	defer func() {
+		if p := recover(); p != nil {
+			r.Out = sb.String() + fmt.Sprint(p)
+			r.Outcome = "panic"
+		}
+	}()
+	vm, _ := vrun.NewVM()
+	vm.SetThrowControl(func(acl data.Control) { r.Outcome = "throw" })
+	v, ctl := vm.ParseFile(path, data.NewObjectValue())
+	if ctl != nil {
+		r.Outcome = "control"
+		if a, ok := ctl.(data.AsString); ok {
+			r.Out = a.AsString()
+		}
+		return r
+	}
+	if val, ok := v.(data.Value); ok {
+		sb.WriteString(val.AsString())
+	}
+	r.Out = sb.String()
+	if r.Outcome == "" {
+		r.Outcome = "ok"
+	}
+	return r
+}
+
+func runView(c Case) (o Obs) {
+	f, err := os.CreateTemp(".", "c20-view-*.html")
+	if err != nil {
+		o.Err = err.Error()
+		return o
+	}
+	path, _ := filepath.Abs(f.Name())
+	f.WriteString(c.Src)
+	f.Close()
+	defer os.Remove(path)
+	reps := c.Reps
+	if reps <= 0 {
+		reps = 1
+	}
+	idx := map[string]int{}
+	for i := 0; i < reps; i++ {
+		r := viewOnce(path)
+		k := r.Outcome + "\x00" + r.Out
+		if j, ok := idx[k]; ok {
+			o.Runs[j].N++
+		} else {
+			idx[k] = len(o.Runs)
+			o.Runs = append(o.Runs, Run{Out: r.Out, Outcome: r.Outcome, N: 1})
+		}
+	}
+	return o
+}
+
 // child mode: argv[1] = "child"; stdin = {"a":..., "b":...}; a may be empty (B alone).
 // Unlike vrun.RunString this goes through the real runtime.VM.LoadAndRun on files, so the reset
 // protocol under test (ResetUserOutput at the start, FlushAllBuffersFn at the end) is the code's own.
@@ -277,6 +347,8 @@ func loadAndRun(src string, tag string) (r Run) {
 	vm.SetThrowControl(func(acl data.Control) { r.Outcome = "throw" })
 	abs, _ := filepath.Abs(path)
 	_, ctl := vm.LoadAndRun(abs)
+	// as cmd/root.go RunScriptFile does after the script: shutdown functions and header callbacks
+	vm.RunShutdownCallbacks()
 	r.Out = sb.String()
 	r.UserOut = data.HasUserOutput()
 	if ctl != nil {
@@ -293,6 +365,8 @@ func loadAndRun(src string, tag string) (r Run) {
 	return r
 }
 
+const rawMarker = "@@C20-B"
+
 func child() {
 	var c Case
 	if err := json.NewDecoder(os.Stdin).Decode(&c); err != nil {
@@ -302,10 +376,116 @@ func child() {
 	if c.A != "" {
 		_ = loadAndRun(c.A, "a")
 	}
+	os.Stdout.WriteString("\n" + rawMarker + "\n")
 	r := loadAndRun(c.B, "b")
 	b, _ := json.Marshal(r)
 	// some builtins print straight to os.Stdout: start the observation on a line of its own
 	fmt.Println("\n" + string(b))
+}
+
+// child-http mode: Src defines function h($r, $w); one request is served by the real
+// std/net/http Handler.ServeHTTP, and the response body is the observation.  One process per run,
+// because $_GET/$_POST/$_SERVER/$_FILES are cached in package-level variables.
+func childHTTP() {
+	var c Case
+	r := Run{}
+	defer func() {
+		if p := recover(); p != nil {
+			r.Outcome = "panic"
+			r.Out = fmt.Sprint(p)
+		}
+		b, _ := json.Marshal(r)
+		fmt.Println("\n" + string(b))
+	}()
+	if err := json.NewDecoder(os.Stdin).Decode(&c); err != nil {
+		r.Outcome = "harness"
+		return
+	}
+	vm, p := vrun.NewVM()
+	vm.SetThrowControl(func(acl data.Control) { r.Outcome = "throw" })
+	prog, acl := p.ParseString(c.Src, "c20.zy")
+	if acl != nil {
+		r.Outcome, r.Out = "parse", acl.AsString()
+		return
+	}
+	ctx := vm.CreateContext(p.GetVariables())
+	if _, ctl := prog.GetValue(ctx); ctl != nil {
+		r.Outcome, r.Out = "control", ctl.AsString()
+		return
+	}
+	fn, ok := vm.GetFunc("h")
+	if !ok {
+		r.Outcome, r.Out = "harness", "no function h"
+		return
+	}
+	req := httptest.NewRequest("POST", "/h?"+c.Query, strings.NewReader(c.Form))
+	req.Header.Set("Content-Type", "application/x-www-form-urlencoded")
+	for _, kv := range c.Headers {
+		req.Header.Set(kv[0], kv[1])
+	}
+	_ = req.ParseForm()
+	rec := httptest.NewRecorder()
+	ohttp.Handler{Value: fn, Ctx: ctx}.ServeHTTP(rec, req)
+	r.Out = rec.Body.String()
+	if r.Outcome == "" {
+		r.Outcome = "ok"
+	}
+}
+
+func runHTTP(c Case) (o Obs) {
+	reps := c.Reps
+	if reps <= 0 {
+		reps = 1
+	}
+	in, _ := json.Marshal(c)
+	idx := map[string]int{}
+	for i := 0; i < reps; i++ {
+		cmd := exec.Command(os.Args[0], "child-http")
+		cmd.Stdin = strings.NewReader(string(in))
+		out, err := cmd.Output()
+		if err != nil {
+			o.Err = "child: " + err.Error()
+			return o
+		}
+		lines := strings.Split(strings.TrimSpace(string(out)), "\n")
+		var r Run
+		if err := json.Unmarshal([]byte(strings.TrimSpace(lines[len(lines)-1])), &r); err != nil {
+			o.Err = "child output: " + string(out)
+			return o
+		}
+		k := r.Outcome + "\x00" + r.Out
+		if j, ok := idx[k]; ok {
+			o.Runs[j].N++
+		} else {
+			idx[k] = len(o.Runs)
+			r.N = 1
+			o.Runs = append(o.Runs, r)
+		}
+	}
+	return o
+}
+
+// maporder: how random is the iteration order of a Go map with len(keys) string keys, in this
+// toolchain?  reps ranges over a fresh map each; the histogram of the orders seen is returned (the
+// check derives from its mode the probability that r runs of an order-dependent program all agree).
+func runMapOrder(c Case) (o Obs) {
+	hist := map[string]int{}
+	for i := 0; i < c.Reps; i++ {
+		m := map[string]int{}
+		for j, k := range c.Keys {
+			m[k] = j
+		}
+		var sb strings.Builder
+		for k := range m {
+			sb.WriteString(k)
+			sb.WriteByte(',')
+		}
+		hist[sb.String()]++
+	}
+	for k, n := range hist {
+		o.Runs = append(o.Runs, Run{Out: k, N: n})
+	}
+	return o
 }
 
 func runChild(a, b string) (*Run, string) {
@@ -322,6 +502,13 @@ func runChild(a, b string) (*Run, string) {
 	var r Run
 	if err := json.Unmarshal([]byte(strings.TrimSpace(lines[len(lines)-1])), &r); err != nil {
 		return nil, "child output: " + string(out)
+	}
+	if i := strings.LastIndex(string(out), "\n"+rawMarker+"\n"); i >= 0 {
+		raw := string(out)[i+len(rawMarker)+2:]
+		if j := strings.LastIndex(raw, "\n{"); j >= 0 {
+			raw = raw[:j]
+		}
+		r.Raw = strings.TrimSpace(raw)
 	}
 	return &r, ""
 }
@@ -352,6 +539,10 @@ func main() {
 		child()
 		return
 	}
+	if len(os.Args) > 1 && os.Args[1] == "child-http" {
+		childHTTP()
+		return
+	}
 	enc0 := json.NewEncoder(os.Stdout)
 	enc := lineEncoder{enc0}
 	vrun.Lines(func(line string) {
@@ -374,6 +565,12 @@ func main() {
 			enc.Encode(runProg(c))
 		case "pair":
 			enc.Encode(runPair(c))
+		case "view":
+			enc.Encode(runView(c))
+		case "http":
+			enc.Encode(runHTTP(c))
+		case "maporder":
+			enc.Encode(runMapOrder(c))
 		default:
 			enc.Encode(Obs{Err: "unknown kind " + c.Kind})
 		}
